@@ -331,8 +331,9 @@ fn classify_step(st: &StepT, s: &StepOut, rule_files: &[(String, Vec<String>, us
 
 fn classify_death(st: &StepT, o: &ExecOut) -> Finding {
     let cerr = String::from_utf8_lossy(&o.child_stderr).into_owned();
-    if o.end == "timeout" {
-        return Finding { sig: format!("hang:{}", st.class.split('-').next().unwrap_or("")), what: format!("`{}` did not terminate within the watchdog", st.class) };
+    if o.end == "signal:24" {
+        // SIGXCPU: the command consumed its whole CPU budget (10 s + 0.25 s per command)
+        return Finding { sig: format!("hang:{}", st.class.split('-').next().unwrap_or("")), what: format!("`{}` did not terminate within its CPU budget (SIGXCPU)", st.class) };
     }
     if cerr.contains("has overflowed its stack") {
         return Finding { sig: "abort:stack-overflow".into(), what: format!("`{}` overflowed its stack and aborted ({})", st.class, o.end) };
@@ -370,6 +371,10 @@ impl C08 {
             let mut next = scn.steps.len();
             for (i, s) in o.steps.iter().enumerate() {
                 let gi = start + i;
+                if o.died_in == Some(i) && o.end == "stalled" {
+                    rep.harness_error = Some(format!("host stalled: `{}` did not finish within 9x the wall-clock budget although it used no CPU budget", scn.steps[gi].class));
+                    return found;
+                }
                 if o.died_in == Some(i) {
                     let f = classify_death(&scn.steps[gi], &o);
                     // rulegen's own exit(1) on an unusable template is its documented error path
